@@ -47,6 +47,7 @@ import (
 	"strings"
 	"sync"
 	"testing"
+	"time"
 
 	"github.com/tucats/ego/verif/vkit"
 	"pgregory.net/rapid"
@@ -54,12 +55,13 @@ import (
 
 // Case is one program and how to run it.
 type Case struct {
-	Kind     string            `json:"kind"`            // gen | hand | corpus
-	Name     string            `json:"name,omitempty"`  // hand: program name; corpus: path below the repository
-	Source   string            `json:"source"`          // gen: the program text
-	Types    string            `json:"types"`           // dynamic | relaxed | strict
-	TraceVia string            `json:"trace_via"`       // run (ego run --trace) | log (ego --log TRACE)
-	Roles    map[string]string `json:"roles,omitempty"` // tag -> what kind of statement prints it
+	Kind     string            `json:"kind"`               // gen | hand | corpus
+	Name     string            `json:"name,omitempty"`     // hand: program name; corpus: path below the repository
+	Source   string            `json:"source"`             // gen: the program text
+	Types    string            `json:"types"`              // dynamic | relaxed | strict
+	TraceVia string            `json:"trace_via"`          // run (ego run --trace) | log (ego --log TRACE)
+	Roles    map[string]string `json:"roles,omitempty"`    // tag -> what kind of statement prints it
+	Features []string          `json:"features,omitempty"` // gen: feature snippets the program contains (label only)
 }
 
 // ---------------------------------------------------------------- running
@@ -130,6 +132,40 @@ type result struct {
 	stdout, stderr string
 	exit           int
 	err            error
+	hung           bool // blocked: every thread asleep and no CPU time used for 40 s; killed
+}
+
+// procState returns the CPU time (clock ticks, user+system) of a process and
+// whether every one of its threads is in interruptible sleep.
+func procState(pid int) (cpu int64, allSleeping bool) {
+	tasks, err := os.ReadDir(fmt.Sprintf("/proc/%d/task", pid))
+	if err != nil || len(tasks) == 0 {
+		return -1, false
+	}
+	allSleeping = true
+	for _, t := range tasks {
+		b, err := os.ReadFile(fmt.Sprintf("/proc/%d/task/%s/stat", pid, t.Name()))
+		if err != nil {
+			return -1, false
+		}
+		text := string(b)
+		i := strings.LastIndex(text, ")")
+		if i < 0 {
+			return -1, false
+		}
+		f := strings.Fields(text[i+1:])
+		if len(f) < 13 {
+			return -1, false
+		}
+		if f[0] != "S" {
+			allSleeping = false
+		}
+		var ut, st int64
+		fmt.Sscan(f[11], &ut)
+		fmt.Sscan(f[12], &st)
+		cpu += ut + st
+	}
+	return cpu, allSleeping
 }
 
 // runMode runs src in the given mode; home selects the HOME directory (one per
@@ -182,8 +218,53 @@ func runMode(dir, mode, home string, c Case, src string) result {
 	cmd.Stdin = strings.NewReader(stdin)
 	var so, se bytes.Buffer
 	cmd.Stdout, cmd.Stderr = &so, &se
-	err := cmd.Run()
-	r := result{stdout: so.String(), stderr: se.String()}
+	if err := cmd.Start(); err != nil {
+		return result{err: err}
+	}
+	waited := make(chan error, 1)
+	go func() { waited <- cmd.Wait() }()
+	var err error
+	hung, capped := false, false
+	idle, started := 0, time.Now()
+	lastCPU := int64(-1)
+watch:
+	for {
+		select {
+		case err = <-waited:
+			break watch
+		case <-time.After(2 * time.Second):
+		}
+		// A blocked process is told from a starved one by what the kernel
+		// says, not by the clock alone: every thread sleeping and the CPU time
+		// of the process unchanged over 20 consecutive samples (40 s). A
+		// process that is merely slow on a loaded machine is runnable or keeps
+		// accumulating CPU time.
+		cpu, allSleeping := procState(cmd.Process.Pid)
+		if allSleeping && cpu == lastCPU {
+			idle++
+		} else {
+			idle = 0
+		}
+		lastCPU = cpu
+		if idle >= 20 {
+			hung = true
+		} else if time.Since(started) > 20*time.Minute {
+			capped = true
+		}
+		if hung || capped {
+			_ = cmd.Process.Kill()
+			err = <-waited
+			break watch
+		}
+	}
+	r := result{stdout: so.String(), stderr: se.String(), hung: hung}
+	if capped {
+		r.err = fmt.Errorf("run exceeded 20 minutes")
+		return r
+	}
+	if hung {
+		return r
+	}
 	if err != nil {
 		if ee, ok := err.(*exec.ExitError); ok && ee.ProcessState.Exited() {
 			r.exit = ee.ExitCode()
@@ -277,6 +358,10 @@ func oracle(c Case) vkit.Outcome {
 		}
 	}
 	plain := res[0]
+	if plain.hung {
+		out.Skip = "the plain run itself blocks"
+		return out
+	}
 	want := tagged(plain.stdout)
 	wantErr := errorLines(plain)
 
@@ -304,6 +389,9 @@ func oracle(c Case) vkit.Outcome {
 		if strings.Contains(src, f.needle) {
 			labels[f.label] = true
 		}
+	}
+	for _, f := range c.Features {
+		labels["feature: "+f] = true
 	}
 	roleSeen := map[string]bool{}
 	for _, l := range want {
@@ -354,6 +442,12 @@ func oracle(c Case) vkit.Outcome {
 		}
 		got := tagged(res[i].stdout)
 		gotErr := errorLines(res[i])
+		if res[i].hung && !plain.hung {
+			out.Fail = &vkit.Failure{Sig: fmt.Sprintf("mode=%s: the run blocks for ever (every thread asleep, no CPU use) where the plain run ends; plain run: %s", m, plainOutcome),
+				Observed: fmt.Sprintf("mode=%s killed after 40 s of every thread sleeping without using CPU time; plain exit=%d\n--- program ---\n%s\n--- tagged lines, plain ---\n%s\n--- tagged lines, %s, before it blocked ---\n%s", m, plain.exit, src, strings.Join(want, "\n"), m, strings.Join(got, "\n")),
+				Expected: "the run ends like the plain run"}
+			return out
+		}
 		observed := func() string {
 			return fmt.Sprintf("mode=%s exit=%d (plain exit=%d)\n--- program ---\n%s\n--- tagged lines, plain ---\n%s\n--- tagged lines, %s ---\n%s\n--- Error lines plain / %s ---\n%s\n/\n%s",
 				m, res[i].exit, plain.exit, src, strings.Join(want, "\n"), m, strings.Join(got, "\n"), m, strings.Join(wantErr, "\n"), strings.Join(gotErr, "\n"))
@@ -481,6 +575,11 @@ type pgen struct {
 	closure int
 	uniq    int
 	useBoom bool
+	// feature snippets (features.go): imports and top-level declarations they need
+	imports  map[string]bool
+	topDecls strings.Builder
+	haveAcct bool
+	features map[string]int
 }
 
 func (g *pgen) w(indent int, format string, args ...any) {
@@ -580,7 +679,7 @@ func (g *pgen) stmts(indent int, c ctx, role string) {
 }
 
 func (g *pgen) stmt(indent int, c ctx, role string) {
-	max := 9
+	max := 12
 	if c.depth <= 0 {
 		max = 3
 	}
@@ -680,6 +779,8 @@ func (g *pgen) stmt(indent int, c ctx, role string) {
 		if rapid.Bool().Draw(g.t, "callagain") {
 			g.w(indent, "%s = %s(%d)", g.pick("lhs", c.vars), name, rapid.IntRange(0, 9).Draw(g.t, "lit"))
 		}
+	case 10, 11, 12:
+		g.feature(indent, c, role)
 	default:
 		g.w(indent, "switch %s %% 3 {", g.pick("sw", all))
 		g.w(indent, "case 0:")
@@ -701,7 +802,7 @@ func (g *pgen) decl(indent int, name, expr string) {
 }
 
 func genProgram(t *rapid.T) Case {
-	g := &pgen{t: t, roles: map[string]string{}}
+	g := &pgen{t: t, roles: map[string]string{}, imports: map[string]bool{}, features: map[string]int{}}
 	g.typed = rapid.Bool().Draw(t, "typed")
 	nf := rapid.IntRange(1, 3).Draw(t, "nfuncs")
 	var funcs []string
@@ -743,6 +844,11 @@ func genProgram(t *rapid.T) Case {
 	for i := 0; i < n; i++ {
 		g.stmt(1, c, "main body")
 	}
+	// most programs carry at least one feature snippet (channels, goroutines,
+	// structs, maps, runtime packages): tracing formats every value it meets
+	for i := rapid.IntRange(0, 2).Draw(t, "mainfeatures"); i > 0; i-- {
+		g.feature(1, c, "main body")
+	}
 	switch rapid.IntRange(0, 5).Draw(t, "ending") {
 	case 0:
 		g.errStmt(1, c)
@@ -756,7 +862,14 @@ func genProgram(t *rapid.T) Case {
 	mainText := g.b.String()
 
 	var src strings.Builder
-	src.WriteString("package main\n\nimport \"fmt\"\n\n")
+	src.WriteString("package main\n\nimport (\n    \"fmt\"\n")
+	for _, imp := range []string{"errors", "json", "math", "sort", "strconv", "strings", "sync"} {
+		if g.imports[imp] {
+			src.WriteString("    \"" + imp + "\"\n")
+		}
+	}
+	src.WriteString(")\n\n")
+	src.WriteString(g.topDecls.String())
 	if g.useBoom {
 		g.b.Reset()
 		g.w(0, "func boom(n int) int {")
@@ -777,7 +890,17 @@ func genProgram(t *rapid.T) Case {
 		Types:    rapid.SampledFrom([]string{"dynamic", "dynamic", "relaxed", "strict"}).Draw(t, "types"),
 		TraceVia: rapid.SampledFrom([]string{"run", "run", "log"}).Draw(t, "tracevia"),
 		Roles:    g.roles,
+		Features: featureList(g.features),
 	}
+}
+
+func featureList(m map[string]int) []string {
+	var out []string
+	for k := range m {
+		out = append(out, k)
+	}
+	sort.Strings(out)
+	return out
 }
 
 // ---------------------------------------------------------------- corpus
